@@ -221,7 +221,9 @@ func runC17(c *core.Ctx) {
 	r := c.R
 	m, info := c17Gen(r)
 	perm := rgen.Permute(m, r.Perm(len(m.Entity)))
-	base, err := gtfs.ParseRealtime(rgen.Marshal(m), &gtfs.ParseRealtimeOptions{})
+	zo := c02Zones[r.Intn(len(c02Zones))] // the same timezone option on both sides of the differential
+	c.Feature("zone:" + zo.name)
+	base, err := gtfs.ParseRealtime(rgen.Marshal(m), &gtfs.ParseRealtimeOptions{Timezone: zo.loc})
 	c.Eval(1)
 	if err != nil {
 		c.Violationf("C17|parse-error", map[string]any{"error": err.Error()}, "ParseRealtime rejected the feed: %v", err)
@@ -270,7 +272,7 @@ func runC17(c *core.Ctx) {
 			}
 		}
 		for pi, msg := range []*gtfsrt.FeedMessage{m, perm} {
-			rt, err := gtfs.ParseRealtime(rgen.Marshal(msg), &gtfs.ParseRealtimeOptions{Extension: nyctalerts.Extension(opts)})
+			rt, err := gtfs.ParseRealtime(rgen.Marshal(msg), &gtfs.ParseRealtimeOptions{Timezone: zo.loc, Extension: nyctalerts.Extension(opts)})
 			c.Eval(1)
 			detail := func() any {
 				return map[string]any{"options": fmt.Sprintf("%+v", opts), "message": prototextOf(msg)}
